@@ -8,13 +8,15 @@ import time
 VERUS = os.environ.get('VERUS', 'verus')
 
 
-def run_verus(rs, seed=0, rlimit=None, extra=(), threads=None, timeout=1800, funcs=None, multiple_errors=50):
+def run_verus(rs, seed=0, rlimit=None, extra=(), threads=None, timeout=1800, funcs=None, multiple_errors=50, module=None):
     cmd = [VERUS, os.path.basename(rs), '--output-json', '--time', '--error-format=json', '--triggers-mode', 'silent',
            '--multiple-errors', str(multiple_errors), '--smt-option', 'smt.random_seed=%d' % seed]
     if rlimit:
         cmd += ['--rlimit', str(rlimit)]
     if threads:
         cmd += ['--num-threads', str(threads)]
+    if module and not funcs:
+        cmd += ['--verify-module', module]
     if funcs:
         cmd += ['--verify-root']
         for f in funcs:
@@ -51,6 +53,8 @@ def parse(run, meta):
         for mod in tm.get('smt', {}).get('smt-run-module-times', []):
             for fb in mod.get('function-breakdown', []):
                 name = fb['function'].split('::', 1)[1] if '::' in fb['function'] else fb['function']
+                if meta.get('module') and name.startswith(meta['module'] + '::'):
+                    name = name[len(meta['module']) + 2:]
                 res['functions'][name] = {'ms': fb.get('time', 0), 'rlimit': fb.get('rlimit', 0), 'success': fb.get('success', False), 'mode': fb.get('mode:', '')}
     origin = meta['origin']
     for line in run['stderr'].split('\n'):
